@@ -33,6 +33,8 @@ type Class struct {
 	LastPayload  int     // apply: the payload that expression denotes
 	ErrTy        string  // "" = the predeclared error; else a key of ErrTypes used in place of `error` …
 	ErrAt        string  // … "result": last result of the (first) stage function; "arg": the error VALUE given to join / toerror
+	Import       string  // import path the package's own file needs (for the argument expression only)
+	ErrExpr      string  // toerror: Go source of the supplied error value (error number 0) when it is not errOf(…)
 	Twin         bool    // a SECOND call site of the same derive function: same types, parameter names in another order
 	Variadic     string  // "" or the Go element type of a variadic last parameter (of stage VarStage for compose)
 	VarStage     int     // compose: which stage is variadic
@@ -106,6 +108,9 @@ func (c *Class) errRet(stage int, custom bool) string {
 
 // errArg is the statement list declaring `e`, the error value number in["<key>"][0] (or "no error").
 func (c *Class) errArg(key string) string {
+	if c.ErrExpr != "" {
+		return "\te := " + c.ErrExpr + "\n"
+	}
 	if c.ErrTy != "" && c.ErrAt == "arg" {
 		t := ErrTypes[c.ErrTy]
 		s := fmt.Sprintf("\tvar e %s = %s\n", t.Go, t.Zero)
@@ -421,6 +426,9 @@ func (c *Class) source() string {
 	var sb strings.Builder
 	w := func(f string, a ...interface{}) { fmt.Fprintf(&sb, f, a...) }
 	w("package %s\n\n", c.Pkg)
+	if c.Import != "" {
+		w("import %q\n\n", c.Import)
+	}
 	run := func(body string) {
 		w("\n// Run executes one op line on the derived wrapper and returns the observable outcome.\n")
 		w("func Run(op string, in map[string][]int) string {\n\ta := in[\"args\"]\n\t_ = a\n\tFail = in[\"fail\"]\n\tLog = nil\n%s}\n", body)
